@@ -32,6 +32,9 @@ const (
 
 	// ToBeForceRemovedByAutoscalerKey specifies the key used to mark a node for force removal
 	ToBeForceRemovedByAutoscalerKey = "atlassian.com/escalator-force"
+
+	// maxTaintTimestamp is the largest taint value accepted as a unix time: 9999-12-31T23:59:59Z
+	maxTaintTimestamp = 253402300799
 )
 
 // AddToBeRemovedTaint takes a k8s node and adds the ToBeRemovedByAutoscaler taint to the node
@@ -107,6 +110,10 @@ func GetToBeRemovedTime(node *apiv1.Node) (*time.Time, error) {
 		timestamp, err := strconv.ParseInt(taint.Value, 10, 64)
 		if err != nil {
 			return nil, err
+		}
+		// a value beyond year 9999 is not a time a node was tainted at (and overflows time.Unix)
+		if timestamp > maxTaintTimestamp {
+			return nil, fmt.Errorf("taint value %v is not a valid unix time", taint.Value)
 		}
 		result := time.Unix(timestamp, 0)
 		return &result, nil
